@@ -5,7 +5,7 @@
     bookkeeping, AppendSampleToRanges, ExpandRangesEnd, Overlaps, MergeRanges, sort) and the reference is
     Model/RangeRef.v ([runs]: maximal runs of present points of ONE unsliced evaluation). *)
 From Coq Require Import List ZArith NArith Bool Lia Permutation.
-From PintV Require Import Common.GoTime Model.Range Model.RangeRef
+From PintV Require Import Common.GoTime Model.Range Model.RangeRef Model.RangeStream Proofs.C13_stream
   Proofs.C13_slice Proofs.C13_grid Proofs.C13_fold Proofs.C13_overlaps Proofs.C13_stair Proofs.C13_imerge
   Proofs.C13_sim Proofs.C13_runs Proofs.C13_final Proofs.C13_headline Proofs.C13_multi.
 Import ListNotations.
@@ -159,6 +159,39 @@ Theorem C13_sliced_eq_unsliced_all_series : forall step (ss : series) (ord : tr 
 Proof. intros. eapply all_series; eassumption. Qed.
 Print Assumptions C13_sliced_eq_unsliced_all_series.
 
+(** ... and from the decoder on.  streamSampleStream decodes every element of a response into ONE reused variable and
+    resets it afterwards ([stream_elems]: json.Unmarshal into an existing map keeps the entries the object does not
+    mention, so without the reset a series with fewer label names would inherit labels of its predecessor).  For series
+    given by their label sets, [hash] (labels.Hash o MetricToLabels) injective on them - the only thing assumed about it -,
+    every response carrying its series in an order of its own, every arrival order: the result holds for every series,
+    under the fingerprint of ITS OWN labels, exactly its runs on the unsliced grid, and nothing under any other
+    fingerprint. *)
+Theorem C13_sliced_eq_unsliced_decoded : forall (hash : metric -> N) step (ls : list (metric * presence))
+    (ord : tr -> list (metric * presence)) fuel start end_ lookback sl arrival,
+  sec <= step -> step <= max_int64 - 2 * hour ->
+  NoDup (map (fun s => hash (fst s)) ls) -> (forall s, Permutation (ord s) ls) ->
+  query_slices fuel start end_ lookback step = Some sl ->
+  Permutation arrival sl ->
+  let response := fun s : tr =>
+    stream_response hash step (map (fun x => (fst x, server_samples (snd x) (fst s) (snd s) step)) (ord s)) in
+  exists res,
+    finalize (merge_fuel (flat_map response arrival)) step (flat_map response arrival) = Some res /\
+    (forall m pres, In (m, pres) ls -> group_of (hash m) res = runs_of (hash m) step pres (first_start sl start) end_) /\
+    (forall fp, ~ In fp (map (fun s => hash (fst s)) ls) -> group_of fp res = []).
+Proof.
+  intros hash step ls ord fuel start end_ lookback sl arrival Hs Hmax Hnd Hord Hq Hperm response.
+  set (g := fun s : metric * presence => (hash (fst s), snd s)).
+  assert (forall l, flat_map response l = flat_map (fun s => per_slice step (map g (ord s)) s) l) as Ef.
+  { intro l. apply flat_map_ext. intro s. unfold response. apply stream_response_per_slice. }
+  assert (map fst (map g ls) = map (fun s => hash (fst s)) ls) as Em by (rewrite map_map; reflexivity).
+  destruct (all_series step Hs (map g ls) (fun s => map g (ord s)) fuel start end_ lookback sl arrival Hmax
+              ltac:(rewrite Em; exact Hnd) ltac:(intro s; apply Permutation_map, Hord) Hq Hperm) as [res [E [H1 H2]]].
+  exists res. rewrite Ef. split; [exact E|]. split.
+  - intros m pres Hin. apply (H1 (hash m) pres). change (hash m, pres) with (g (m, pres)). apply in_map. exact Hin.
+  - intros fp Hn. apply H2. rewrite Em. exact Hn.
+Qed.
+Print Assumptions C13_sliced_eq_unsliced_decoded.
+
 (** Non-vacuity: a 7-minute step (does not divide 2h; slice = 119m), 5 slices arriving out of order
     (1,0,4,3,2), a series present over three slice boundaries with ONE missing sample exactly on a slice
     boundary: the premises hold, the pipeline evaluates, and the result is the two expected ranges (a gap of
@@ -194,19 +227,22 @@ Print Assumptions C13_nonvacuous.
     the third slice (so it occurs in one response only), responses listing their series in alternating order. *)
 Definition ex_pres2 : presence := fun t => (1654056060 * sec <=? t) && (t <=? 1654059000 * sec).
 Definition ex_ss : series := [(1%N, ex_pres); (2%N, ex_pres2)].
-Definition ex_ord (s : tr) : series := if Z.even (fst s / hour) then ex_ss else rev ex_ss.
+Definition ex_ord (s : tr) : series := if Z.even (fst s / (119 * minute)) then ex_ss else rev ex_ss.
 
 Example C13_nonvacuous_multi :
-  exists sl res, query_slices 100 ex_start ex_end (8 * hour) ex_step = Some sl /\
+  exists sl, query_slices 100 ex_start ex_end (8 * hour) ex_step = Some sl /\
     let arrival := rev (skipn 2 sl ++ firstn 2 sl) in
-    sliced_ord (merge_fuel (flat_map (fun s => per_slice ex_step (ex_ord s) s) arrival)) ex_step ex_ord arrival = Some res /\
-    group_of 1 res = ex_expected /\
-    group_of 2 res = runs_of 2 ex_step ex_pres2 (first_start sl ex_start) ex_end /\
-    group_of 2 res <> [] /\
-    exists s1 s2, In s1 sl /\ In s2 sl /\ ex_ord s1 <> ex_ord s2.
+    match sliced_ord (merge_fuel (flat_map (fun s => per_slice ex_step (ex_ord s) s) arrival)) ex_step ex_ord arrival with
+    | Some res =>
+        group_of 1 res = ex_expected /\
+        group_of 2 res = runs_of 2 ex_step ex_pres2 (first_start sl ex_start) ex_end /\
+        length (group_of 2 res) = 1%nat
+    | None => False
+    end /\
+    map (fun s => map fst (ex_ord s)) sl = [[1%N; 2%N]; [2%N; 1%N]; [1%N; 2%N]; [2%N; 1%N]; [1%N; 2%N]].
 Proof.
-  eexists. eexists. split; [vm_compute; reflexivity|]. cbv zeta. split; [vm_compute; reflexivity|].
-  split; [vm_compute; reflexivity|]. split; [vm_compute; reflexivity|]. split; [vm_compute; discriminate|].
-  eexists. eexists. split; [left; reflexivity|]. split; [right; left; reflexivity|]. vm_compute. discriminate.
+  eexists. split; [vm_compute; reflexivity|]. cbv zeta. split.
+  - vm_compute. split; [reflexivity|]. split; reflexivity.
+  - vm_compute. reflexivity.
 Qed.
 Print Assumptions C13_nonvacuous_multi.
